@@ -28,6 +28,7 @@ import (
 	"os"
 	"sort"
 	"strings"
+	"sync/atomic"
 	"testing"
 	"time"
 
@@ -73,7 +74,7 @@ func (o c30Op) Name() string {
 	}
 	if o.perm != 0 {
 		pm := c30Perms[o.perm]
-		s += fmt.Sprintf("@order=%s<%s<%s", c30Peers[pm[0]], c30Peers[pm[1]], c30Peers[pm[2]])
+		s += fmt.Sprintf("@order=%s<%s<%s", string(c30Peers[pm[0]]), string(c30Peers[pm[1]]), string(c30Peers[pm[2]]))
 	}
 	return s
 }
@@ -90,13 +91,17 @@ type c30State struct {
 
 func c30Fresh(cfg c30Cfg) *c30State {
 	ctx := &c30Ctx{now: c30Base}
-	c30BindG(ctx)
 	ps, err := newPeerSet(NewConfigSet(cfg.maxIn, cfg.maxOut, cfg.reservedOnly, time.Hour))
 	if err != nil {
 		panic(err)
 	}
-	// what PeerSet.start does, without the goroutine
-	ps.resultMsgCh = make(chan Message, msgChanSize)
+	if !ps.created.IsZero() || !ps.latestTimeUpdate.IsZero() {
+		panic("verif C30: clock not owned: newPeerSet read a clock the harness does not own")
+	}
+	ps.created, ps.latestTimeUpdate = c30Base, c30Base // the time newPeerSet reads at construction
+	// what PeerSet.start does, without the goroutine (no operation emits more than a handful of
+	// messages over three peers; a smaller buffer than msgChanSize keeps the fresh instances cheap)
+	ps.resultMsgCh = make(chan Message, 32)
 	c30Register(ctx, ps)
 	return &c30State{cfg: cfg, ps: ps, ctx: ctx}
 }
@@ -127,7 +132,7 @@ func c30Snapshot(s *c30State) c30Snap {
 	for i, id := range c30Peers {
 		if n, ok := ps.peerState.nodes[id]; ok {
 			sn.nodes[i] = c30Node{present: true, state: n.state[0], rep: n.reputation, lastSec: n.lastConnected[0].Second()}
-			if n.lastConnected[0].After(s.ctx.now) || n.lastConnected[0].Before(c30Base) {
+			if n.lastConnected[0].IsZero() || n.lastConnected[0].After(s.ctx.now) || n.lastConnected[0].Before(c30Base) {
 				panic("verif C30: clock not owned: lastConnected outside the virtual time range")
 			}
 		}
@@ -151,9 +156,11 @@ func (sn c30Snap) connected(i int) bool {
 	return sn.nodes[i].present && (sn.nodes[i].state == ingoing || sn.nodes[i].state == outgoing)
 }
 
-// violated returns the set of violated state invariants (key -> description).
-func (sn c30Snap) violated() map[string]string {
-	out := map[string]string{}
+type c30Viol struct{ key, desc string }
+
+// violated returns the violated state invariants in a fixed order.
+func (sn c30Snap) violated() []c30Viol {
+	var out []c30Viol
 	var cntIn, cntOut uint32
 	for i := range c30Peers {
 		if !sn.connected(i) || sn.reserved[i] {
@@ -165,20 +172,20 @@ func (sn c30Snap) violated() map[string]string {
 			cntOut++
 		}
 		if sn.nodes[i].rep < BannedThresholdValue {
-			out["B1:"+string(c30Peers[i])] = fmt.Sprintf("non-reserved peer %s is connected with reputation %d < threshold %d", c30Peers[i], sn.nodes[i].rep, BannedThresholdValue)
+			out = append(out, c30Viol{"B1:" + string(c30Peers[i]), fmt.Sprintf("non-reserved peer %s is connected with reputation %d < threshold %d", string(c30Peers[i]), sn.nodes[i].rep, BannedThresholdValue)})
 		}
 	}
 	if sn.numIn > sn.maxIn || cntIn > sn.maxIn {
-		out["S1:in"] = fmt.Sprintf("inbound slots exceed the maximum: numIn=%d, connected non-reserved inbound peers=%d, maxIn=%d", sn.numIn, cntIn, sn.maxIn)
+		out = append(out, c30Viol{"S1:in", fmt.Sprintf("inbound slots exceed the maximum: numIn=%d, connected non-reserved inbound peers=%d, maxIn=%d", sn.numIn, cntIn, sn.maxIn)})
 	}
 	if sn.numOut > sn.maxOut || cntOut > sn.maxOut {
-		out["S1:out"] = fmt.Sprintf("outbound slots exceed the maximum: numOut=%d, connected non-reserved outbound peers=%d, maxOut=%d", sn.numOut, cntOut, sn.maxOut)
+		out = append(out, c30Viol{"S1:out", fmt.Sprintf("outbound slots exceed the maximum: numOut=%d, connected non-reserved outbound peers=%d, maxOut=%d", sn.numOut, cntOut, sn.maxOut)})
 	}
 	if sn.numIn != cntIn {
-		out["S2:in"] = fmt.Sprintf("numIn=%d but %d non-reserved peers are connected inbound", sn.numIn, cntIn)
+		out = append(out, c30Viol{"S2:in", fmt.Sprintf("numIn=%d but %d non-reserved peers are connected inbound", sn.numIn, cntIn)})
 	}
 	if sn.numOut != cntOut {
-		out["S2:out"] = fmt.Sprintf("numOut=%d but %d non-reserved peers are connected outbound", sn.numOut, cntOut)
+		out = append(out, c30Viol{"S2:out", fmt.Sprintf("numOut=%d but %d non-reserved peers are connected outbound", sn.numOut, cntOut)})
 	}
 	return out
 }
@@ -194,7 +201,7 @@ func (sn c30Snap) String() string {
 		if n.present {
 			st = [...]string{"notMember", "ingoing", "outgoing", "notConnected"}[n.state]
 		}
-		fmt.Fprintf(&b, " %s{%s rep=%d", c30Peers[i], st, n.rep)
+		fmt.Fprintf(&b, " %s{%s rep=%d", string(c30Peers[i]), st, n.rep)
 		if sn.reserved[i] {
 			b.WriteString(" reserved")
 		}
@@ -311,12 +318,19 @@ func c30Apply(s *c30State, o c30Op) string {
 	s.last = cls
 
 	// state invariants: report what this operation introduces
-	was := pre.violated()
-	for _, k := range c30SortedKeys(post.violated()) {
-		if _, already := was[k]; already {
-			continue
+	if now := post.violated(); len(now) > 0 {
+		was := pre.violated()
+		for _, v := range now {
+			already := false
+			for _, w := range was {
+				if w.key == v.key {
+					already = true
+				}
+			}
+			if !already {
+				s.softf(c30InvSig(o, v.key, pre, post), "%s: %s; before: %s; after: %s", name, v.desc, pre, post)
+			}
 		}
-		s.softf(c30InvSig(o, k, pre), "%s: %s; before: %s; after: %s", name, post.violated()[k], pre, post)
 	}
 
 	// B2: messages
@@ -332,7 +346,7 @@ func c30Apply(s *c30State, o c30Op) string {
 		if before < int64(BannedThresholdValue) && post.nodes[i].rep < BannedThresholdValue {
 			s.softf(o.kind+":"+c30StatusName(m.Status)+"-emitted-for-banned-peer",
 				"%s: %s emitted for non-reserved peer %s whose reputation is below the threshold before (%d) and after (%d) the operation; before: %s; after: %s",
-				name, c30StatusName(m.Status), m.PeerID, before, post.nodes[i].rep, pre, post)
+				name, c30StatusName(m.Status), string(m.PeerID), before, post.nodes[i].rep, pre, post)
 		}
 	}
 
@@ -357,13 +371,21 @@ func c30Apply(s *c30State, o c30Op) string {
 				sig = "report:reputation-not-saturating"
 			}
 			s.softf(sig, "%s: reputation of %s (listed at position %d) is %d, want clamp(%d%+d)=%d; before: %s; after: %s",
-				name, c30Peers[p], k, got, decayed, o.delta, want, pre, post)
+				name, string(c30Peers[p]), k, got, decayed, o.delta, want, pre, post)
 		}
 	}
 	if post.extraNodes != 0 {
 		return "harness: unknown peers in the node table"
 	}
 	return ""
+}
+
+func c30AsOps(h []c30Op) []verifmc.Op {
+	out := make([]verifmc.Op, len(h))
+	for i, o := range h {
+		out[i] = o
+	}
+	return out
 }
 
 func c30Index(id peer.ID) int {
@@ -375,18 +397,9 @@ func c30Index(id peer.ID) int {
 	return -1
 }
 
-func c30SortedKeys(m map[string]string) []string {
-	ks := make([]string, 0, len(m))
-	for k := range m {
-		ks = append(ks, k)
-	}
-	sort.Strings(ks)
-	return ks
-}
-
 // c30InvSig names the shape of a newly violated invariant: operation kind, invariant, and the
 // situation of the peer(s) the operation touched.
-func c30InvSig(o c30Op, key string, pre c30Snap) string {
+func c30InvSig(o c30Op, key string, pre, post c30Snap) string {
 	inv := map[string]string{"S1:in": "inbound-slots-exceed-max", "S1:out": "outbound-slots-exceed-max",
 		"S2:in": "numIn-differs-from-connected-inbound", "S2:out": "numOut-differs-from-connected-outbound"}[key]
 	if strings.HasPrefix(key, "B1:") {
@@ -395,9 +408,9 @@ func c30InvSig(o c30Op, key string, pre c30Snap) string {
 	shape := ""
 	switch o.kind {
 	case "removeReserved", "setReserved":
-		// a reserved peer that is connected loses its reservation and starts to occupy a slot
+		// a reserved peer loses its reservation while it is connected and starts to occupy a slot
 		for i := range c30Peers {
-			if pre.reserved[i] && pre.connected(i) {
+			if pre.reserved[i] && !post.reserved[i] && post.connected(i) {
 				shape = "(connected-reserved-peer-unreserved)"
 			}
 		}
@@ -457,7 +470,11 @@ func c30BaseOps(thorough bool) []c30Op {
 			ops = append(ops, c30Op{kind: "report", peers: []int{p}, delta: d})
 		}
 	}
-	for _, d := range deltas {
+	pairDeltas := []int32{thr - 1, -1} // the first peer falls below the threshold / stays above it
+	if thorough {
+		pairDeltas = deltas
+	}
+	for _, d := range pairDeltas {
 		for p := 0; p < 3; p++ {
 			for q := 0; q < 3; q++ {
 				if p != q {
@@ -506,7 +523,7 @@ func TestVerif_C30(t *testing.T) {
 	thorough := verifmc.Thorough()
 	maxSlots := verifmc.Pick(uint32(2), uint32(3))
 	depth := verifmc.Pick(4, 5)
-	if v := os.Getenv("C30_DEPTH"); v != "" { // debugging aid only
+	if v := os.Getenv("VERIF_C30_DEPTH"); v != "" { // to reproduce a shallow counterexample faster; recorded in the rule text
 		fmt.Sscan(v, &depth)
 	}
 	base := c30BaseOps(thorough)
@@ -529,27 +546,62 @@ func TestVerif_C30(t *testing.T) {
 
 	c30Arithmetic(r)
 
-	// L1 (prerequisite of "a reported change applies to each peer"): report must return.  A report
-	// that names a peer absent from the node table is probed once under a watchdog; if it does not
-	// return, that is recorded and such reports are not executed during the exploration (a blocked
-	// PeerSet cannot be explored further); every other hang is caught by the explorer's own watchdog.
-	reportUnknownHangs := false
-	{
+	// L1 (prerequisite of "a reported change applies to each peer"): report must return.  Two scripted
+	// probes run under a watchdog: a report naming a peer that is absent from the node table, and a
+	// report naming a peer that the time update at the start of reportPeer forgets.  If a probe does
+	// not return, that is recorded and reports of that shape are not executed during the exploration
+	// (a blocked PeerSet cannot be explored further; the shape is predicted from the pre-state, and a
+	// misprediction is caught by the watchdog of the dry run / of the explorer).
+	hangAbsent, hangForgotten := false, false
+	probe := func(sig, why string, cfg c30Cfg, ops []c30Op) bool {
+		var names []string
+		for _, o := range ops {
+			names = append(names, o.Name())
+		}
 		fin, pmsg := verifmc.WithWatchdog(5*time.Second, func() {
-			s := c30Fresh(c30Cfg{1, 1, false})
-			c30Apply(s, c30Op{kind: "report", peers: []int{0}, delta: -1})
+			s := c30Fresh(cfg)
+			for _, o := range ops {
+				c30Apply(s, o)
+			}
 			c30Release(s)
 		})
 		switch {
 		case !fin:
-			reportUnknownHangs = true
-			r.Violate("report:never-returns-for-peer-absent-from-node-table",
-				"report(-1;p1) on a fresh PeerSet did not return within 5s (PeersState.addReputation holds the PeersState lock and calls insertPeer, which locks it again)",
-				[]string{"report(-1;p1)"})
-			r.Outcome("report:hang-on-unknown-peer")
+			r.Violate(sig, fmt.Sprintf("%v on a fresh PeerSet (maxIn=%d,maxOut=%d): the last operation did not return within 5s (%s)", names, cfg.maxIn, cfg.maxOut, why), names)
+			r.Outcome("report:probe-hangs")
+			return true
 		case pmsg != "":
-			r.Violate("report:panic:"+verifmc.PanicSite(pmsg), pmsg, []string{"report(-1;p1)"})
+			r.Violate("report:panic:"+verifmc.PanicSite(pmsg), pmsg, names)
 		}
+		r.Outcome("report:probe-returns")
+		return false
+	}
+	hangAbsent = probe("report:never-returns(peer-absent-from-node-table)",
+		"PeersState.addReputation holds the PeersState lock and calls insertPeer, which locks it again",
+		c30Cfg{1, 1, false}, []c30Op{{kind: "report", peers: []int{0}, delta: -1}})
+	hangForgotten = probe("report:never-returns(peer-forgotten-by-the-time-update-of-the-same-call)",
+		"updateTime forgets the peer whose reputation decayed to 0, then addReputation re-inserts it while holding the lock",
+		c30Cfg{0, 0, false}, []c30Op{{kind: "addPeer", peers: []int{0}}, {kind: "tick", secs: 1}, {kind: "report", peers: []int{0}, delta: -1}})
+	wouldBlock := func(s *c30State, o c30Op) bool {
+		if o.kind != "report" || !(hangAbsent || hangForgotten) {
+			return false
+		}
+		sn := c30Snapshot(s)
+		for _, p := range o.peers {
+			n := sn.nodes[p]
+			if !n.present {
+				if hangAbsent {
+					return true
+				}
+				continue
+			}
+			// forgotten by updateTime: not connected, reputation decays to 0 within the pending seconds,
+			// and second-of-minute of lastConnected < second-of-minute of now
+			if hangForgotten && sn.pending >= 1 && n.state == notConnected && c30Decay(int64(n.rep), sn.pending) == 0 && n.lastSec < s.ctx.now.Second() {
+				return true
+			}
+		}
+		return false
 	}
 
 	for in := uint32(0); in <= maxSlots; in++ {
@@ -559,37 +611,44 @@ func TestVerif_C30(t *testing.T) {
 				h := &verifmc.Hist[*c30State]{
 					Fresh: func() *c30State { return c30Fresh(cfg) },
 					Ops: func(s *c30State) []verifmc.Op {
-						// dry run of every base operation to learn whether an iteration order can matter
-						var ops []verifmc.Op
+						// dry run of every base operation (on replayed copies) to learn whether an
+						// iteration order can matter; one watchdog goroutine for the whole batch
+						var cand []c30Op
 						for _, o := range base {
-							if o.kind == "report" && reportUnknownHangs {
-								absent := false
-								for _, p := range o.peers {
-									if _, ok := s.ps.peerState.nodes[c30Peers[p]]; !ok {
-										absent = true
-									}
-								}
-								if absent {
-									r.Outcome("report:not-executed(names-absent-peer,would-block)")
-									continue
-								}
-							}
-							ops = append(ops, o)
-							if o.kind == "tick" {
+							if wouldBlock(s, o) {
+								r.Outcome("report:not-executed(would-block)")
 								continue
 							}
-							sens := false
-							fin, pmsg := verifmc.WithWatchdog(20*time.Second, func() {
-								d := c30Fresh(cfg)
-								for _, ho := range s.hist {
-									c30Apply(d, ho)
+							cand = append(cand, o)
+						}
+						sens := make([]bool, len(cand))
+						for start := 0; start < len(cand); {
+							var done int32 = int32(start)
+							fin, _ := verifmc.WithWatchdog(10*time.Second, func() {
+								for i := start; i < len(cand); i++ {
+									if cand[i].kind != "tick" {
+										d := c30Fresh(cfg)
+										for _, ho := range s.hist {
+											c30Apply(d, ho)
+										}
+										d.ctx.sensitive = false
+										p, _ := verifmc.Guard(func() { c30Apply(d, cand[i]) })
+										sens[i] = d.ctx.sensitive && !p
+										c30Release(d)
+									}
+									atomic.StoreInt32(&done, int32(i+1))
 								}
-								d.ctx.sensitive = false
-								c30Apply(d, o)
-								sens = d.ctx.sensitive
-								c30Release(d)
 							})
-							if fin && pmsg == "" && sens {
+							if fin {
+								break
+							}
+							// cand[done] did not return: the explorer's own watchdog will report it
+							start = int(atomic.LoadInt32(&done)) + 1
+						}
+						var ops []verifmc.Op
+						for i, o := range cand {
+							ops = append(ops, o)
+							if sens[i] {
 								for pm := 1; pm < len(c30Perms); pm++ {
 									v := o
 									v.perm = pm
